@@ -6,6 +6,7 @@
 -/
 import SoyVerif.Lemmas.MsgNames
 import SoyVerif.Lemmas.MsgDistinct
+import SoyVerif.Lemmas.MsgParts
 
 namespace SoyVerif.Props.C10
 open SoyVerif SoyVerif.Model.Msg
@@ -153,5 +154,32 @@ theorem names_equiv_same (o : Orders) (ho : o.Valid) (body : List Part) (i : Nat
 /-- non-vacuity: `{$a.x}{$b.x}{$x_1}{$a.x}`: four nodes, three names -/
 example : setNames Orders.id [.ph [88] [1], .ph [88] [2], .ph [88, 95, 49] [3], .ph [88] [1]]
     = [[88, 95, 50], [88, 95, 51], [88, 95, 49], [88, 95, 50]] := by decide
+
+/-! ## 5. `Parts` inverts `PlaceholderString` (C11) -/
+
+/-- FULL for flat (non-plural) bodies: if no run of adjacent raw texts contains a substring of
+    the shape `{[A-Z0-9_]+}` and every name is in `[A-Z0-9_]+`, then `Parts` applied to the
+    placeholder string returns the body's text / placeholder sequence (adjacent texts
+    merged, empty texts dropped).  (`Parts` does not parse plural syntax — soymsg.go says
+    so — hence the restriction to flat bodies.) -/
+theorem parts_writeFP (nb : List NPart) (htext : NoMatch (leadText nb)) (hflat : FlatOK nb) :
+    parts (writeFPList true nb) = expectedParts nb [] :=
+  partsGo_writeFP nb [] htext hflat
+
+theorem parts_placeholderString (o : Orders) (m : Msg)
+    (htext : NoMatch (leadText (namedBody o m.body))) (hflat : FlatOK (namedBody o m.body)) :
+    parts (placeholderString o m) = expectedParts (namedBody o m.body) [] :=
+  parts_writeFP _ htext hflat
+
+/-- non-vacuity: `x{A}{B_1} {}` + `.` — hypotheses hold, texts around are merged -/
+example : parts (writeFPList true [.text [120], .ph [65], .ph [66, 95, 49], .text [32], .text [123, 125], .text [46]])
+    = [.text [120], .ph [65], .ph [66, 95, 49], .text [32, 123, 125, 46]] := by
+  rw [parts_writeFP]
+  · rfl
+  · exact noMatch_of_noMatchB (by decide)
+  · refine ⟨⟨by simp, by decide⟩, noMatch_of_noMatchB (by decide), ⟨by simp, by decide⟩,
+      noMatch_of_noMatchB (by decide), trivial⟩
+/-- the hypothesis on the texts is needed: the raw text `{A}` comes back as a placeholder -/
+example : parts (writeFPList true [.text [123, 65, 125]]) = [.ph [65]] := by decide
 
 end SoyVerif.Props.C10
